@@ -48,7 +48,13 @@ pub fn phases(prop: &str, tier: Tier) -> Vec<Phase> {
             Phase { name: "rt-large", units: 3, seeded: false },
             Phase { name: "rt-seeded", units: if q { 1500 } else { 150_000 }, seeded: true },
         ],
-        "C01" | "C02" | "C04" => vec![
+        "C02" => vec![
+            Phase { name: "rt-grid", units: 13, seeded: false },
+            Phase { name: "rt-large", units: 3, seeded: false },
+            Phase { name: "rt-seeded", units: if q { 1500 } else { 150_000 }, seeded: true },
+            Phase { name: "wfault-c02", units: if q { 1500 } else { 150_000 }, seeded: true },
+        ],
+        "C01" | "C04" => vec![
             Phase { name: "rt-grid", units: 13, seeded: false },
             Phase { name: "rt-large", units: 3, seeded: false },
             Phase { name: "rt-seeded", units: if q { 1500 } else { 150_000 }, seeded: true },
@@ -87,7 +93,7 @@ pub fn phases(prop: &str, tier: Tier) -> Vec<Phase> {
         ],
         "C13" => vec![
             Phase { name: if q { "rfault-large-coarse" } else { "rfault-large" }, units: 8, seeded: false },
-            Phase { name: "rfault", units: if q { 200 } else { 40_000 }, seeded: true },
+            Phase { name: "rfault", units: if q { 200 } else { 25_000 }, seeded: true },
         ],
         _ => vec![],
     }
@@ -181,6 +187,7 @@ pub fn run_unit(prop: &str, phase: &str, unit: u64, seed: u64, _tier: Tier, ctx:
         "crash-sampled" => crate::fam_crash::unit(derive(seed, "C11/crash", unit), 20_000, ctx, ctl),
         "crash-full" => crate::fam_crash::unit(derive(seed, "C11/crash", unit), usize::MAX, ctx, ctl),
         "wfault-c05" => crate::fam_wfault::unit_c05(derive(seed, "C05/wfault", unit), ctx, ctl),
+        "wfault-c02" => crate::fam_wfault::unit_c02(derive(seed, "C02/wfault", unit), ctx, ctl),
         "wfault" => crate::fam_wfault::unit(derive(seed, "C12/wfault", unit), ctx, ctl),
         "corrupt" => crate::fam_corrupt::unit(derive(seed, "C07/corrupt", unit), ctx, ctl),
         "ladder" => crate::fam_corrupt::ladder_unit(unit, ctx, ctl),
@@ -202,7 +209,7 @@ pub fn meta(prop: &str) -> PropMeta {
     match prop {
         "C01" | "C02" | "C04" | "C18" => PropMeta {
             level: "exploration",
-            rule: "rt-grid: 13 types x parts 1..=6 x points/part 1..=8 x {Direct, BufWriter(7), BufWriter(8192)} x {with,without shx}, enumerated; rt-large: files of 1023..10000 records, shapes of 1023..2049 parts and of 1023..8193 points per part, around the readers' internal limits; rt-seeded: one seeded scenario per run (type, 0..40 shapes via public constructors, swarm-drawn float classes incl. +-0, subnormals, +-inf, sentinels, no-data neighbourhood, NaN in Z/M; finalize placement; ending by drop / finalize+drop / write_shapes; writer and reader stacks; chunk/EINTR schedules on all four devices; by-path routes over pre-existing longer files in 1/16 of the runs). A run is non-trivial if it wrote at least one shape; distinct = distinct (type, per-shape part-length signature, writer stack, call pattern, reader stack) tuples by hash.",
+            rule: "rt-grid: 13 types x parts 1..=6 x points/part 1..=8 x {Direct, BufWriter(7), BufWriter(8192)} x {with,without shx}, enumerated; rt-large: files of 1023..10000 records, shapes of 1023..2049 parts and of 1023..8193 points per part, around the readers' internal limits; rt-seeded: one seeded scenario per run (type, 0..40 shapes via public constructors, swarm-drawn float classes incl. +-0, subnormals, +-inf, sentinels, no-data neighbourhood, NaN in Z/M; finalize placement; ending by drop / finalize+drop / write_shapes; writer and reader stacks; chunk/EINTR schedules on all four devices; by-path routes over pre-existing longer files in 1/16 of the runs). every file is read back through iter_shapes / iter_shapes_as / read / read_as / random access / the Iterator adaptors nth(1) + step_by(2), with and without index; wfault-c02 (C02 only): seeded workloads with finalize calls anywhere (plain or retried) x every device operation of every finalize failed once on either file - the file a later successful finalize or the drop leaves behind is judged by the strict decoder. A run is non-trivial if it wrote at least one shape; distinct = distinct (type, per-shape part-length signature, writer stack, call pattern, reader stack) tuples by hash.",
             explanation: "Fault-free configuration of the simulator with must-be-masked transfer schedules: the real writer runs against simulated devices, the bytes are judged by an independent decoder and read back through every reading route of the real reader. Simulated time = device operations (logical_steps); the code under test has no clock.",
             exhaustive: false,
         },
@@ -232,13 +239,13 @@ pub fn meta(prop: &str) -> PropMeta {
         },
         "C08" => PropMeta {
             level: "exploration",
-            rule: "pair-sweep: 13 types x all histories up to length 4 (quick) / 5 (thorough) over {good pair a, good pair b, shape of another type, row missing a field, row with a value of the wrong field type} (a wrong-type shape never first) x ending {drop, write_shapes_and_records} x {Direct, BufWriter(64)}, enumerated completely, by-path route (Writer::from_path over pre-existing longer files, Reader::from_path, shapefile::read) on the length-2 histories without failing rows; pair-large: 1025, 4097 and 6000 pairs in one file; pair-seeded: seeded histories up to length 10 with generated shapes and stacks. distinct = distinct (type, history, ending, stack) tuples.",
+            rule: "pair-sweep: 13 types x all histories up to length 4 (quick) / 5 (thorough) over {good pair a, good pair b, shape of another type, row missing a field, row with a value of the wrong field type} (a wrong-type shape never first) x ending {drop, write_shapes_and_records} x {Direct, BufWriter(64)}, enumerated completely, by-path route (Writer::from_path over pre-existing longer files, then a neighbouring data set with other rows written to a path that differs only behind a dot inside the file stem; Reader::from_path, shapefile::read) on the length-2 histories without failing rows; for histories without failing row also the complete Reader after seek(k-1), a failing typed pair iteration and seek(k); pair-large: 1025, 4097 and 6000 pairs in one file; pair-seeded: seeded histories up to length 10 with generated shapes and stacks. distinct = distinct (type, history, ending, stack) tuples.",
             explanation: "The complete Writer runs on three simulated devices. After every call (Direct stack) the three files are scanned physically and independently (records from byte 100, index entries, whole rows after the dbf header + stray bytes); at the end the counts come from the independent decoders and the dbf header, and the complete Reader must return exactly the successfully written pairs, shape i with the row whose idx is i. Histories containing a failing row hit the two known findings listed in known_findings.jsonl.",
             exhaustive: true,
         },
         "C15" => PropMeta {
             level: "exploration",
-            rule: "all call sequences up to length 4 (quick) / 6 (thorough) over the 15-letter alphabet {iterate 0/1/2/all items, read_nth_shape(0..=3), read_nth_shape_as::<another type>(0..=1) (a random access that fails), seek(0..=3), shape_count} on files of n=3 records (plus six configurations with n = 1, 2 and 4 records; the 4-record ones one call shorter), for 10 configurations: {ShapeReader with index, ShapeReader without index, complete Reader with rows carrying their index} x {records of pairwise different sizes, records of equal size}, plus 4 configurations (ShapeReader with index, complete Reader) on files re-laid out so that the physical order differs from the index order (reversed with filler; rotated with filler that looks like a record header), enumerated completely (15 + 15^2 + 15^3 + 15^4 histories per configuration in the quick tier). distinct = distinct (configuration, history) pairs; evaluations = histories executed; logical_steps = reader calls.",
+            rule: "all call sequences up to length 4 (quick) / 6 (thorough) over the 17-letter alphabet {iterate 0/1/2/all items, Iterator::nth(1) on a new iterator (what skip and step_by call), read_nth_shape(0..=3), read_nth_shape_as::<another type>(0..=1) (a random access that fails), iterate as another type and take one item (an iteration that fails), seek(0..=3), shape_count} on files of n=3 records (plus six configurations with n = 1, 2 and 4 records; the 4-record ones one call shorter), for 10 configurations: {ShapeReader with index, ShapeReader without index, complete Reader with rows carrying their index} x {records of pairwise different sizes, records of equal size}, plus 4 configurations (ShapeReader with index, complete Reader) on files re-laid out so that the physical order differs from the index order (reversed with filler; rotated with filler that looks like a record header), enumerated completely (17 + 17^2 + 17^3 + 17^4 histories per 3-record configuration in the quick tier). distinct = distinct (configuration, history) pairs; evaluations = histories executed; logical_steps = reader calls.",
             explanation: "Each history runs on the real reader over in-memory sources; every call's result is checked against a nondeterministic reference model whose state is the set of allowed positions of the next record: fresh / after random access = {0}, after seek(k) = {min(k,n)}, after an iteration that took items from p = {p+taken, 0}. Rows of the complete Reader must carry the index of their shape.",
             exhaustive: true,
         },
@@ -250,7 +257,7 @@ pub fn meta(prop: &str) -> PropMeta {
         },
         "C10" => PropMeta {
             level: "exploration",
-            rule: "c10-sweep: all 13x12 ordered (file type, offered type) pairs x all histories over {write a, write b, finalize} that start with a write, up to length 3 (quick) / 5 (thorough) x every position of the rejected call, enumerated completely; c10-user-shape: for each file type, a user-defined EsriShape (the trait is public) of another type announcing sizes from 0 to u64::MAX; hw-seeded: seeded longer histories; pair-sweep / pair-seeded: the complete writer (the rejected pair must not touch the .dbf either). distinct = distinct (type, call pattern, index, stack) tuples.",
+            rule: "c10-sweep: all 13x12 ordered (file type, offered type) pairs x all histories over {write a, write b, finalize} that start with a write, up to length 3 (quick) / 5 (thorough) x every position of the rejected call, enumerated completely; c10-user-shape: for each file type, a user-defined EsriShape (the trait is public) of each of the 13 other type codes - NullShape included, which no built-in shape has - announcing sizes from 0 to u64::MAX; hw-seeded: seeded longer histories; pair-sweep / pair-seeded: the complete writer (the rejected pair must not touch the .dbf either). distinct = distinct (type, call pattern, index, stack) tuples.",
             explanation: "The rejected call must return MismatchShapeType{file type, offered type}, have an empty device-event range, and the final files must equal those of the history with the rejected calls deleted.",
             exhaustive: true,
         },
@@ -268,7 +275,7 @@ pub fn meta(prop: &str) -> PropMeta {
         },
         "C07" | "C17" => PropMeta {
             level: "fault_enumeration",
-            rule: "corrupt: one unit = one seeded base file from the real writer (any type, 1..4 records, 1..3 parts) with its .shx and a valid .dbf; enumerated per base file: every 32-bit field of .shp and .shx (header length/version/type, record number/length/type, part and point counts, every part offset, every patch kind, index length/type, every index offset/length) x ~25 boundary values (0, +-1, i32::MIN/MAX, 2^27..2^30 and neighbours, doubles/halves of the original), every truncation length of both files, extensions by 1/7/8/100 bytes and by a copy of the records; sampled per base file: 150 field pairs, 150 bit flips, 40 garbage bodies behind a valid file code. ladder: for every multi-vertex type and the index, declared counts 10^3..2^31-1 (incl. 2^27, 2^28, 2^29 whose byte sizes wrap 32 bits) with mutually consistent record/file lengths and either no data behind or exactly 1024/1025/2048/5000 elements (4096/4097/9000 index entries) really present; plus valid fully backed files of unusual structure (3000 two-point parts, 2049 patches, 1500 rings, 8193 points, 5000 records). Every case drives ~45 reader calls (open, header, count, iterate generic/typed drained, size_hint, read_nth and seek at 0,1,n-1,n,usize::MAX each followed by iteration, read, read_as, complete Reader iterate/seek/read). distinct = distinct (type, field id + value class, outcome signature) triples.",
+            rule: "corrupt: one unit = one seeded base file from the real writer (any type, 1..4 records, 1..3 parts) with its .shx and a valid .dbf; enumerated per base file: every 32-bit field of .shp and .shx (header length/version/type, record number/length/type, part and point counts, every part offset, every patch kind, index length/type, every index offset/length) x ~25 boundary values (0, +-1, i32::MIN/MAX, 2^27..2^30 and neighbours, doubles/halves of the original), every truncation length of both files, extensions by 1/7/8/100 bytes and by a copy of the records; sampled per base file: 150 field pairs, 150 bit flips, 40 garbage bodies behind a valid file code. ladder: for every multi-vertex type and the index, declared counts 10^3..2^31-1 (incl. 2^27, 2^28, 2^29 whose byte sizes wrap 32 bits) with mutually consistent record/file lengths and either no data behind or exactly 1024/1025/2048/5000 elements (4096/4097/9000 index entries) really present, and for the multipart types counts that need no x,y at all (the only part starts at, or one before, the end of the points; no part), so that the Z / M arrays are reached with nothing read; plus valid fully backed files of unusual structure (3000 two-point parts, 2049 patches, 1500 rings, 8193 points, 5000 records). Every case drives ~45 reader calls (open, header, count, iterate generic/typed drained, size_hint, read_nth and seek at 0,1,n-1,n,usize::MAX each followed by iteration, read, read_as, complete Reader iterate/seek/read). distinct = distinct (type, field id + value class, outcome signature) triples.",
             explanation: "Each reader call runs under catch_unwind (overflow checks and debug assertions on) and between begin/end of the counting allocator; iterators are drained through an item cap of (len(shp)+len(shx))/4+16. Workers run under an address-space limit with a watchdog: a worker that dies or stalls is pinpointed to the case and reported as abort/hang. C17 bound per call: peak live bytes and largest single request <= 64 x input bytes + 64 KiB.",
             exhaustive: false,
         },
